@@ -102,7 +102,7 @@ Section Dec2.
   Notation choose_meta := (choose_meta rd ps).
 
   (** ---- tree pages ---- *)
-  Definition idxs (count : N) : list N := map N.of_nat (seq 0 (N.to_nat count)).
+  Definition idxs (count : N) : list N := run 0 count.      (* [0; 1; ...; count-1] *)
 
   Fixpoint mapM {A B} (f : A -> option B) (l : list A) : option (list B) :=
     match l with [] => Some [] | a :: r =>
